@@ -109,7 +109,9 @@ class WorkCopy:
         if race:
             cmd += ['-race', '-gcflags=all=-d=checkptr=0']
         cmd += list(extra) + [pkg]
-        e = {'VERIF_OUT': self.root + '/out', 'VERIF_SEED': seed()}
+        os.makedirs(self.root + '/tmp', exist_ok=True)
+        # temporary files of the code under test (spill files, invocation caches, stores) go under the work copy
+        e = {'VERIF_OUT': self.root + '/out', 'VERIF_SEED': seed(), 'TMPDIR': self.root + '/tmp'}
         if env:
             e.update(env)
         p = sh(cmd, cwd=self.src, env=e, timeout=timeout + 120, check=False)
@@ -194,7 +196,8 @@ def tlc(workdir, module, cfg, files=None, workers=None, simulate=None, depth=Non
         cmd += ['-coverage', '1']
     cmd += list(extra) + [module + '.tla']
     env = {}
-    jo = '-Xss64m'
+    os.makedirs(workdir + '/jtmp', exist_ok=True)
+    jo = '-Xss64m -Djava.io.tmpdir=%s/jtmp' % workdir
     if java_opts:
         jo += ' ' + java_opts
     env['JAVA_TOOL_OPTIONS'] = jo
